@@ -237,7 +237,8 @@ StateView ==
 (***************************************************************************)
 (* Emission for the harness (role 2).                                      *)
 (***************************************************************************)
-Present(c) == [k \in {f \in DOMAIN c : c[f] # ABSENT} |-> c[k]]
+NonString == {"newids", "ids", "doc", "rpathok", "yes", "again"}
+Present(c) == [k \in {f \in DOMAIN c : f \in NonString \/ c[f] # ABSENT} |-> c[k]]
 EmitLine == ToJson([hist  |-> [k \in 1..Len(hist) |-> Present(hist[k])],
                     alpha |-> IF Len(hist) < MaxDepth THEN {Present(c) : c \in Alphabet(G)} ELSE {}])
 EmitInv ==
